@@ -31,6 +31,7 @@ type funcNames struct {
 	Results []string    `json:"results,omitempty"`
 	Outer   []string    `json:"outer,omitempty"` // for a function literal's contract: the enclosing function's parameters (captured)
 	Sites   map[string][]string `json:"sites,omitempty"` // callee text with site-keyed clauses -> assignment target of each call, in source order
+	LoopSeq map[string]string `json:"-"` // current run: loop ordinal -> the slice the loop walks over (ranged expression, or x of `i < len(x)`)
 	LocalPos []int      `json:"-"` // declaration position of each local (current run only)
 	Callees [][2]string `json:"callees,omitempty"` // (callee text, type) of calls through an indexed function value, e.g. subs[i](...)
 	Locals  [][4]string `json:"locals,omitempty"` // (name, type, initial boolean literal if declared with one, role: "val:<loop>:<ranged expr>" / "idx:<loop>" for the value / index variable of a loop outside function literals) in source order
@@ -77,53 +78,8 @@ func namesOfDecl(p *packages.Package, d *ast.FuncDecl) funcNames {
 	}
 	// loop variables of loops outside function literals (pre-order ordinal as in the contracts): an invariant that names
 	// the element or index variable can be re-read over the ranged expression and the iteration ghost
-	roles := map[types.Object]string{}
-	ord := 0
-	var walk func(n ast.Node)
-	walk = func(n ast.Node) {
-		ast.Inspect(n, func(m ast.Node) bool {
-			switch st := m.(type) {
-			case *ast.FuncLit:
-				return false
-			case *ast.RangeStmt:
-				ord++
-				if st.Tok == token.DEFINE {
-					if id, ok := st.Key.(*ast.Ident); ok && id.Name != "_" {
-						if tv, ok := p.TypesInfo.Types[st.X]; ok {
-							if _, isSl := tv.Type.Underlying().(*types.Slice); isSl {
-								roles[p.TypesInfo.Defs[id]] = fmt.Sprintf("idx:%d", ord)
-							}
-							if b, isB := tv.Type.Underlying().(*types.Basic); isB && b.Info()&types.IsInteger != 0 {
-								roles[p.TypesInfo.Defs[id]] = fmt.Sprintf("idx:%d", ord)
-							}
-						}
-					}
-					if id, ok := st.Value.(*ast.Ident); ok && id.Name != "_" {
-						if tv, ok := p.TypesInfo.Types[st.X]; ok {
-							if _, isSl := tv.Type.Underlying().(*types.Slice); isSl {
-								roles[p.TypesInfo.Defs[id]] = fmt.Sprintf("val:%d:%s", ord, exprStr(st.X))
-							}
-						}
-					}
-				}
-			case *ast.ForStmt:
-				ord++
-				if as, ok := st.Init.(*ast.AssignStmt); ok && as.Tok == token.DEFINE && len(as.Lhs) == 1 && len(as.Rhs) == 1 {
-					if id, ok := as.Lhs[0].(*ast.Ident); ok {
-						if inc, ok := st.Post.(*ast.IncDecStmt); ok && inc.Tok == token.INC {
-							if lit, ok := as.Rhs[0].(*ast.BasicLit); ok && lit.Value == "0" {
-								roles[p.TypesInfo.Defs[id]] = fmt.Sprintf("idx:%d", ord)
-							} else {
-								roles[p.TypesInfo.Defs[id]] = fmt.Sprintf("ctr:%d", ord) // counts from another start: the loop's variable, but not its iteration number
-							}
-						}
-					}
-				}
-			}
-			return true
-		})
-	}
-	walk(d.Body)
+	roles := loopRoles(p, d.Body)
+	fn.LoopSeq = loopSeqOf[d.Body]
 	// boolean flags declared with a literal: the literal tells an inverted flag (allNull := true -> anyPrepared := false)
 	inits := map[*ast.Ident]string{}
 	boolLit := func(e ast.Expr) string {
@@ -241,10 +197,20 @@ func (E *Engine) namesOfLit(p *packages.Package, key string) (funcNames, bool) {
 	}
 	outer := namesOfDecl(p, d)
 	fn := funcNames{Recv: outer.Recv, Params: fieldNames(lit.Type.Params), Results: fieldNames(lit.Type.Results), Outer: outer.Params, Locals: outer.Locals, LocalPos: outer.LocalPos, Callees: outer.Callees}
-	// the literal's own parameters are recorded as parameters, not as locals
-	isParam := map[string]bool{}
-	for _, x := range fn.Params {
-		isParam[x] = true
+	// loops inside the literal are numbered from 1 within it (the literal is verified as a function of its own)
+	lr := loopRoles(p, lit.Body)
+	fn.LoopSeq = loopSeqOf[lit.Body]
+	byPos := map[int]string{}
+	for o, r := range lr {
+		if o != nil {
+			byPos[int(o.Pos())] = r
+		}
+	}
+	fn.Locals = append([][4]string(nil), fn.Locals...)
+	for i := range fn.Locals {
+		if i < len(fn.LocalPos) && fn.LocalPos[i] >= int(lit.Pos()) && fn.LocalPos[i] <= int(lit.End()) {
+			fn.Locals[i][3] = byPos[fn.LocalPos[i]]
+		}
 	}
 	return fn, true
 }
@@ -290,6 +256,76 @@ func sitesOf(d *ast.FuncDecl, c *FuncContract, unren map[string]string) map[stri
 	}
 	visit(d.Body, "")
 	return out
+}
+
+
+// loopRoles: the loop variables of the loops in body (function literals excluded), keyed by object, with the loop's
+// pre-order ordinal as the contracts count it.
+var loopSeqOf = map[ast.Node]map[string]string{}
+
+func loopRoles(p *packages.Package, body ast.Node) map[types.Object]string {
+	seqs := map[string]string{}
+	loopSeqOf[body] = seqs
+	roles := map[types.Object]string{}
+	ord := 0
+	var walk func(n ast.Node)
+	walk = func(n ast.Node) {
+		ast.Inspect(n, func(m ast.Node) bool {
+			switch st := m.(type) {
+			case *ast.FuncLit:
+				return false
+			case *ast.RangeStmt:
+				ord++
+				if tv, ok := p.TypesInfo.Types[st.X]; ok {
+					if _, isSl := tv.Type.Underlying().(*types.Slice); isSl && !strings.Contains(exprStr(st.X), "…") {
+						seqs[fmt.Sprint(ord)] = exprStr(st.X)
+					}
+				}
+				if st.Tok == token.DEFINE {
+					if id, ok := st.Key.(*ast.Ident); ok && id.Name != "_" {
+						if tv, ok := p.TypesInfo.Types[st.X]; ok {
+							if _, isSl := tv.Type.Underlying().(*types.Slice); isSl {
+								roles[p.TypesInfo.Defs[id]] = fmt.Sprintf("idx:%d", ord)
+							}
+							if b, isB := tv.Type.Underlying().(*types.Basic); isB && b.Info()&types.IsInteger != 0 {
+								roles[p.TypesInfo.Defs[id]] = fmt.Sprintf("idx:%d", ord)
+							}
+						}
+					}
+					if id, ok := st.Value.(*ast.Ident); ok && id.Name != "_" {
+						if tv, ok := p.TypesInfo.Types[st.X]; ok {
+							if _, isSl := tv.Type.Underlying().(*types.Slice); isSl {
+								roles[p.TypesInfo.Defs[id]] = fmt.Sprintf("val:%d:%s", ord, exprStr(st.X))
+							}
+						}
+					}
+				}
+			case *ast.ForStmt:
+				ord++
+				if be, ok := st.Cond.(*ast.BinaryExpr); ok && be.Op == token.LSS {
+					if c, ok := ast.Unparen(be.Y).(*ast.CallExpr); ok && len(c.Args) == 1 {
+						if fid, ok := c.Fun.(*ast.Ident); ok && fid.Name == "len" {
+							seqs[fmt.Sprint(ord)] = exprStr(c.Args[0])
+						}
+					}
+				}
+				if as, ok := st.Init.(*ast.AssignStmt); ok && as.Tok == token.DEFINE && len(as.Lhs) == 1 && len(as.Rhs) == 1 {
+					if id, ok := as.Lhs[0].(*ast.Ident); ok {
+						if inc, ok := st.Post.(*ast.IncDecStmt); ok && inc.Tok == token.INC {
+							if lit, ok := as.Rhs[0].(*ast.BasicLit); ok && lit.Value == "0" {
+								roles[p.TypesInfo.Defs[id]] = fmt.Sprintf("idx:%d", ord)
+							} else {
+								roles[p.TypesInfo.Defs[id]] = fmt.Sprintf("ctr:%d", ord) // counts from another start: the loop's variable, but not its iteration number
+							}
+						}
+					}
+				}
+			}
+			return true
+		})
+	}
+	walk(body)
+	return roles
 }
 
 // declForKey finds the declaration a contract key refers to ("F", "T.M", "F$N" -> the enclosing F).
@@ -472,7 +508,12 @@ func renamesFor(rec, cur funcNames) map[string]string {
 			} else if strings.HasPrefix(l[3], "val:") {
 				parts := strings.SplitN(strings.TrimPrefix(l[3], "val:"), ":", 2)
 				if len(parts) == 2 {
-					expr = "(" + parts[1] + ")[$i" + parts[0] + "]"
+					if y := cur.LoopSeq[parts[0]]; y != "" {
+						// what the loop with that ordinal walks over now
+						expr = "\x01(" + y + ")[$i" + parts[0] + "]"
+					} else if !strings.Contains(parts[1], "…") {
+						expr = "(" + parts[1] + ")[$i" + parts[0] + "]"
+					}
 				}
 			}
 			if expr != "" {
@@ -629,6 +670,10 @@ func unrenameObligation(name, key string, inv map[string]string, texts [][2]stri
 // applyRenames rewrites one contract in place.
 func applyRenames(c *FuncContract, ren map[string]string) {
 	for o, n := range ren {
+		if strings.HasPrefix(n, "\x01") {
+			ren[o] = n[1:]
+			continue
+		}
 		if strings.HasPrefix(n, "(") && strings.Contains(n, "$i") {
 			plain := map[string]string{}
 			for o2, n2 := range ren {
@@ -646,7 +691,23 @@ func applyRenames(c *FuncContract, ren map[string]string) {
 			if c.Alias == nil {
 				c.Alias = map[string][]string{}
 			}
-			c.Alias[strings.TrimPrefix(o, aliasMark)] = strings.Split(strings.TrimSuffix(n, ","), ",")
+			plain := map[string]string{}
+			for o2, n2 := range ren {
+				if !strings.HasPrefix(o2, "\x00") && !strings.HasPrefix(n2, "(") && !strings.HasPrefix(n2, "\x01") {
+					plain[o2] = n2
+				}
+			}
+			var alts []string
+			for _, a := range strings.Split(strings.TrimSuffix(n, ","), ",") {
+				switch {
+				case strings.HasPrefix(a, "\x01"):
+					a = a[1:] // already written with the current names
+				case strings.ContainsAny(a, "$(["):
+					a = renameText(a, plain)
+				}
+				alts = append(alts, a)
+			}
+			c.Alias[strings.TrimPrefix(o, aliasMark)] = alts
 			continue
 		}
 		if !strings.HasPrefix(n, "(") && !strings.HasPrefix(o, noCallMark) {
